@@ -147,7 +147,10 @@ def case_strategy(draw: Any) -> dict[str, Any]:
         sup = {"t": "out", "e": ["path", "block", [["n", "super"]]], "wc": ["", ""]}
         base: list[dict[str, Any]] = [{"t": "text", "s": "B:"}]
         for name in [*BLOCK_NAMES[:nblocks], "extra"]:
-            base.append({"t": "block", "name": name, "body": small(), "wc": g.wc(), "wc_end": g.wc()})
+            blk = {"t": "block", "name": name, "body": small(), "wc": g.wc(), "wc_end": g.wc()}
+            if name != "extra" and draw(st.integers(0, 3)) == 0:
+                blk["required"] = True  # always overridden by the child; its body still runs through block.super
+            base.append(blk)
             if draw(st.booleans()):
                 base.extend(small())
         if draw(st.integers(0, 5)) == 0:
@@ -161,7 +164,8 @@ def case_strategy(draw: Any) -> dict[str, Any]:
                     body = small()
                     if draw(st.booleans()):
                         body.insert(draw(st.integers(0, len(body))), sup)
-                    mid.append({"t": "block", "name": name, "body": body, "wc": g.wc(), "wc_end": g.wc()})
+                    mid.append({"t": "block", "name": name, "body": body, "wc": g.wc(), "wc_end": g.wc(),
+                                "required": name != "extra" and draw(st.integers(0, 3)) == 0})
             templates["mid"] = mid
             parent = "mid"
         child: list[dict[str, Any]] = []
